@@ -419,7 +419,7 @@ def r5_3(model, rep, sa, n):
     q = typed(ev, "query", ("cls", f"{T}.TRSOQuery"))
     A = varset(ev, "additional_interventions")
     rets = return_paths(ev.run(f, {"query": q, "additional_interventions": A}))
-    ok = len(rets) == 1 and _base_copy(rets[0].value)[0] == "copyof" and _setattrs(rets[0].value).get(("deep", "new_query.target_interventions")) == ("update", (A,))
+    ok = len(rets) == 1 and _base_copy(rets[0].value)[0] == "copyof" and _setattrs(rets[0].value).get(("deep", (("attr", "target_interventions"),))) == ("update", (A,))
     (rep.proven if ok else rep.refuted)("R5.3", construct(f, "line3-update"), "" if ok else "line 3 must add the no-effect nodes to the interventions of a deep copy of the query", loc(f))
 
 
